@@ -1,6 +1,6 @@
-"""group `http`: contrib/http.hpp rules with hand-written match() bodies: chunk_data (consumes exactly the `size` bytes
+"""group `http`: contrib/http.hpp rules with hand-written match() bodies: chunk_size (hex-digit loop, loop contract) and chunk_data (consumes exactly the `size` bytes
 announced by chunk_size, or fails without consuming). Serves C03 (no read / consume past the end), C02 (rewind), C06."""
-from vfcore import R, E, A, Contract, Job
+from vfcore import R, E, A, Contract, Job, Clause
 from common import *
 import g_pos
 
@@ -16,11 +16,48 @@ def tu():
         for m in (0, 1):
             s += tu_root('chunk_data_M%d_%s' % (m, sfx), INPUT_TYPES[(tr, 'lf_crlf')],
                          'http::chunk_data::match< A1, M%d, nothing, normal >( in, size )' % m, extra_params=', const std::size_t size')
+        s += tu_root('chunk_size_%s' % sfx, INPUT_TYPES[(tr, 'lf_crlf')],
+                     'http::chunk_size::match< A1, M0, nothing, normal >( in, size )', extra_params=', std::size_t& size')
     return s
+
+
+CS_PRE = '''
+const char* g_p0; size_t g_k;    /* ghost: cursor at entry, probe index */
+#define ISHEX(c) (((c) >= '0' && (c) <= '9') || ((c) >= 'a' && (c) <= 'f') || ((c) >= 'A' && (c) <= 'F'))
+#define P0H ((const char*)UOLD(in))
+'''
+CS_LOOP = ('__CPROVER_assigns(i, *size)\n'
+           '__CPROVER_loop_invariant(i <= g_n - OFF(g_p0) && ITER_UNCHANGED_LOOP(in) && PTRS_OK(in) && __CPROVER_same_object(g_p0, CUR(in)) && OFF(g_p0) == OFF(CUR(in))'
+           ' && ((g_k < i) ==> ISHEX(g_p0[g_k])))\n'
+           '__CPROVER_decreases(g_n - OFF(g_p0) - i)')
 
 
 def jobs(tier):
     out = []
+    for tr, sfx in TRACKINGS:
+        lp = '#define ITER_UNCHANGED_LOOP(in) (CUR(in) == __CPROVER_loop_entry(CUR(in))%s)\n' % (
+            ' && BYTE(in) == __CPROVER_loop_entry(BYTE(in)) && LINE(in) == __CPROVER_loop_entry(LINE(in)) && COL(in) == __CPROVER_loop_entry(COL(in))' if tr == 'eager' else '')
+        extra = [
+            E('RET == (AVAIL_OLD(in) >= 1 && ISHEX(P0H[0]))', 'CHUNK-SIZE-SUCCEEDS-IFF-A-HEX-DIGIT-IS-NEXT', ('C03',)),
+            E('(g_k < CONSUMED(in)) ==> ISHEX(P0H[g_k])', 'CHUNK-SIZE-CONSUMES-ONLY-HEX-DIGITS', ('C03',)),
+            E('CONSUMED(in) == AVAIL_OLD(in) || !ISHEX(P0H[CONSUMED(in)])', 'CHUNK-SIZE-CONSUMES-ALL-LEADING-HEX-DIGITS', ('C03',)),
+        ]
+        # RC-POS (the position fold over the consumed bytes) is evaluated by unwinding the spec fold and cannot be used for an unbounded
+        # number of consumed bytes; for eager inputs the equivalent statement is: only hex digits (no line ending) were consumed (clause
+        # above), the line is unchanged and byte and column advanced by the consumed length
+        if tr == 'eager':
+            extra.append(E('LINE(in) == OLD(LINE(in)) && COL(in) == OLD(COL(in)) + CONSUMED(in) && BYTE(in) == OLD(BYTE(in)) + CONSUMED(in)',
+                           'CHUNK-SIZE-POSITION-ADVANCES-WITHIN-THE-LINE-BY-THE-CONSUMED-LENGTH', ('C06',)))
+        con = rc_leaf(tr, 'lf_crlf', progress=True, extra=extra, pos=False)
+        con.add(R('__CPROVER_w_ok(size, sizeof(size_t)) && g_p0 == CUR(in)', 'size-state-writable'))
+        con.add(Clause('assigns', '*size'))
+        name = 'chunk_size_%s' % sfx
+        out.append(Job(
+            name=name, group=NAME, root=name, contract=con,
+            props=('C03', 'C02', 'C06'), prelude=prelude(tr) + CS_PRE + lp + g_pos.PRE_STUB, stubs=g_pos.pos_stubs(),
+            loops={(r'http::chunk_size::match<', 1): CS_LOOP},
+            harness=input_harness('vf_' + INPUT_TYPES[(tr, 'lf_crlf')], tr, 'w_ret = $ENTRY(&in, &w_size)', extra_decl='  size_t w_size;\n', pre_call='  g_p0 = CUR(&in);\n'),
+            expect_fail_canary=canaries(), desc='http::chunk_size::match on memory_input<%s>: the hex-digit loop under a loop contract (the accumulated value is not specified: it wraps for more than 16 digits)' % tr))
     for tr, sfx in TRACKINGS:
         for m in (0, 1):
             extra = [
